@@ -2596,3 +2596,79 @@ func ruleLoopsMakeProgress(c *Ctx, rule string, pkgs ...string) {
 	}
 	c.floor(rule, "condition-controlled loops over loop-carried variables", n, 1)
 }
+
+// ruleVariadicProviderCalls (C04.15): a provider function with a variadic last parameter requires the slice behind it; the
+// emitted call must pass that slice as `arg...`. The parser has to look at Signature.Variadic() when it turns parameters
+// into requirements, and the call template has to set Ellipsis under that flag.
+func ruleVariadicProviderCalls(c *Ctx, rule string) {
+	L := c.L
+	ppt := resolveRole(c, genPkg, "(*Parser).parseProviderType")
+	if ppt == nil {
+		c.undecided(rule, "parseProviderType", "function not found")
+		return
+	}
+	consults := false
+	for _, fn := range family(L, ppt) {
+		for _, cs := range callsIn(fn) {
+			if cs.callee == "(*go/types.Signature).Variadic" {
+				consults = true
+			}
+		}
+	}
+	c.check(consults, rule, "parseProviderType:variadic-consulted", L.pos(ppt.Pos()),
+		"the provider signature's variadic flag is read when its parameters become requirements (the last requirement of a variadic provider is a slice that must be spread)", "call of (*types.Signature).Variadic in parseProviderType's family")
+	emits := false
+	for _, fn := range pkgFuncs(L, genPkg) {
+		for _, b := range fn.Blocks {
+			for _, in := range b.Instrs {
+				st, ok := in.(*ssa.Store)
+				if !ok {
+					continue
+				}
+				fa, ok := st.Addr.(*ssa.FieldAddr)
+				if !ok || fieldKey(fa) != "go/ast.CallExpr.Ellipsis" {
+					continue
+				}
+				for _, iff := range controllingIfs(st) {
+					s := newSym(L, map[string]bool{})
+					s.maxD = 0
+					if strings.Contains(strings.Join(s.eval(iff.Cond), "|"), "ProviderSpec.IsVariadic(") || condMentionsField(iff.Cond, "internal/kessoku.ProviderSpec.IsVariadic", 6) {
+						emits = true
+					}
+				}
+			}
+		}
+	}
+	c.check(emits, rule, "provider-call:ellipsis-for-variadic", "-", "the provider call is emitted with `...` exactly for variadic providers", "store to CallExpr.Ellipsis under ProviderSpec.IsVariadic")
+}
+
+// condMentionsField: the branch condition (through &&-chains lowered to earlier branches and phis) reads the given field.
+func condMentionsField(v ssa.Value, key string, depth int) bool {
+	if depth < 0 || v == nil {
+		return false
+	}
+	switch x := v.(type) {
+	case *ssa.UnOp:
+		if fa, ok := x.X.(*ssa.FieldAddr); ok && fieldKey(fa) == key {
+			return true
+		}
+		return condMentionsField(x.X, key, depth-1)
+	case *ssa.BinOp:
+		return condMentionsField(x.X, key, depth-1) || condMentionsField(x.Y, key, depth-1)
+	case *ssa.Phi:
+		for _, e := range x.Edges {
+			if condMentionsField(e, key, depth-1) {
+				return true
+			}
+		}
+		// a phi of a short-circuit: look at the branches that feed it
+		for _, p := range x.Block().Preds {
+			if len(p.Instrs) > 0 {
+				if iff, ok := p.Instrs[len(p.Instrs)-1].(*ssa.If); ok && condMentionsField(iff.Cond, key, depth-1) {
+					return true
+				}
+			}
+		}
+	}
+	return false
+}
